@@ -108,6 +108,9 @@ func c19Drivers() []*icCfg {
 		{Name: "R6-update-vs-evict", O: small, Pre: []icOp{S(1)}, Scripts: [][]icOp{{S(1), S(1)}, {S(2)}, {G(1), {Kind: "range"}}}},
 		// read buffer with every atomic a scheduling point and capacity 2 (build schedTrackBuf): drains, Free and refills overlap
 		{Name: "R8-read-buffer", O: big, Pre: []icOp{S(1)}, Scripts: [][]icOp{{G(1), G(1)}, {G(1), G(1)}, {G(1), S(2)}}},
+		// doorkeeper on, the sketch one addition short of its aging reset: whatever the reset touches must be touched under the right lock
+		{Name: "R10-doorkeeper-vs-sketch-reset", O: hOpts{MaxSize: 10, ChanSize: 4, BufSize: 2, Doorkeeper: true}, Pre: []icOp{S(1), S(1), {Kind: "wait"}, {Kind: "sketch-edge"}},
+			Scripts: [][]icOp{{S(2), S(2)}, {S(3), S(3)}, {G(1)}}},
 		{Name: "R7-expiry-vs-ttl-update", O: big, Pre: []icOp{T(1, sec)}, Scripts: [][]icOp{{T(1, 90*sec), G(1)}, {tick}, {D(1)}}},
 	}
 }
